@@ -446,6 +446,181 @@ func (c *Ctx) evxRun() []*opsVerdict {
 			}
 		}()
 	}
+	// ---- a collection that took part in evaluations and is then edited by its owner ----------------------
+	// "Evaluating ... does not modify ... the variable values": an evaluation leaves nothing behind in the
+	// variable collection. One collection (p = 2, q = 3, r = 5, s = 7, in that order) is used in an evaluation,
+	// then its owner edits it through the exported API (one edit, or two with an evaluation in between), and
+	// every expression of a small family is evaluated with it. A twin collection goes through the same
+	// construction, the same expressions set and the same edits on another machine without ever being evaluated before: every answer
+	// (value or error code) must be the twin's. Caller-supplied collections (EvaluateUsingVariables) and the
+	// calculator's default collection (Evaluate).
+	{
+		type edit struct {
+			show string
+			do   func(h *vxHarness, col mIface) mOutcome
+		}
+		newVar := c.MustFunc("calculator/variables", "", "NewVariable")
+		call := func(name string, args ...mv) func(h *vxHarness, col mIface) mOutcome {
+			return func(h *vxHarness, col mIface) mOutcome {
+				_, out := callM(c, h.m, col.t, name, col.v, args...)
+				return out
+			}
+		}
+		add := func(name string, n int64) func(h *vxHarness, col mIface) mOutcome {
+			return func(h *vxHarness, col mIface) mOutcome {
+				vr, out := h.m.Call(newVar, name, h.variant("Integer", n))
+				if out.kind != "ok" {
+					return out
+				}
+				_, out = callM(c, h.m, col.t, "Add", col.v, mIface{t: resultType(newVar), v: vr})
+				return out
+			}
+		}
+		seq := func(fs ...func(h *vxHarness, col mIface) mOutcome) func(h *vxHarness, col mIface) mOutcome {
+			return func(h *vxHarness, col mIface) mOutcome {
+				for _, f := range fs {
+					if out := f(h, col); out.kind != "ok" {
+						return out
+					}
+				}
+				return mOutcome{kind: "ok"}
+			}
+		}
+		names := []string{"p", "q", "r", "s"}
+		start := map[string]evxVal{"p": {"Integer", int64(2)}, "q": {"Integer", int64(3)}, "r": {"Integer", int64(5)}, "s": {"Integer", int64(7)}}
+		var edits []edit
+		for i, n := range names {
+			edits = append(edits, edit{fmt.Sprintf("RemoveByName(%q)", n), call("RemoveByName", n)})
+			edits = append(edits, edit{fmt.Sprintf("RemoveByName(%q)", strings.ToUpper(n)), call("RemoveByName", strings.ToUpper(n))})
+			edits = append(edits, edit{fmt.Sprintf("Remove(%d)", i), call("Remove", int64(i))})
+			edits = append(edits, edit{fmt.Sprintf("Add(%s = 11)", n), add(n, 11)})
+			edits = append(edits, edit{fmt.Sprintf("RemoveByName(%q), Add(%s = 13)", n, n), seq(call("RemoveByName", n), add(n, 13))})
+		}
+		edits = append(edits,
+			edit{"Add(t = 11)", add("t", 11)},
+			edit{"Locate(\"t\")", call("Locate", "t")},
+			edit{"Locate(\"Q\")", call("Locate", "Q")},
+			edit{"Clear()", call("Clear")},
+			edit{"Clear(), Add(r = 17), Add(p = 19)", seq(call("Clear"), add("r", 17), add("p", 19))},
+			edit{"ClearValues()", call("ClearValues")})
+		exprs := []string{"p + q * 10", "q * 10 + r", "r * 10 + s", "s * 10 + p", "t + P * 10", "p + q + r + s"}
+		firsts := []string{"p + q * 10", "s"}
+		for _, mode := range []string{"caller-supplied", "default"} {
+			mode := mode
+			v := &opsVerdict{key: "variables.VariableCollection#edited-after-an-evaluation#" + mode, pos: c.Pos(c.MustFunc("calculator/variables", "VariableCollection", "FindByName").Pos())}
+			all = append(all, v)
+			wg.Add(1)
+			go func() {
+				defer wg.Done()
+				defer func() {
+					if r := recover(); r != nil {
+						a, ok := r.(mAbort)
+						if !ok {
+							panic(r)
+						}
+						v.undec = a.why
+					}
+				}()
+				used, ref := c.newVxHarness("TypeUnsafeVariantOperations"), c.newVxHarness("TypeUnsafeVariantOperations")
+				if used.fault != "" || ref.fault != "" {
+					v.undec = used.fault + ref.fault
+					return
+				}
+				calcT := resultType(c.MustFunc(pkgCalc, "", "NewExpressionCalculator"))
+				// a calculator and the collection (p, q, r, s) on a harness
+				build := func(h *vxHarness) (*evxCalc, mIface, string) {
+					k, why := h.newEvxCalc("")
+					if k == nil {
+						return nil, mIface{}, why
+					}
+					if mode == "caller-supplied" {
+						vars, _ := h.evxVariables(names, start)
+						return k, vars.(mIface), ""
+					}
+					dv, out := callM(c, h.m, calcT, "DefaultVariables", k.calc)
+					col, ok := dv.(mIface)
+					if out.kind != "ok" || !ok {
+						return nil, mIface{}, "DefaultVariables: " + out.why
+					}
+					for _, n := range names {
+						if out := add(n, start[n].payload.(int64))(h, col); out.kind != "ok" {
+							return nil, mIface{}, "Add: " + out.why
+						}
+					}
+					return k, col, ""
+				}
+				eval := func(k *evxCalc, col mIface, expr string) (string, string) {
+					if out := k.setTokens(expr); out.kind != "ok" {
+						return "", "SetOriginalTokens: " + out.why
+					}
+					if mode == "caller-supplied" {
+						return k.evaluate(col)
+					}
+					k.h.m.steps = 0
+					r, out := callM(c, k.h.m, calcT, "Evaluate", k.calc)
+					return k.h.renderResult(r, out)
+				}
+				evalName := map[string]string{"caller-supplied": "EvaluateUsingVariables with the collection", "default": "Evaluate() with the default collection"}[mode]
+				// history: first, edit e1, [evaluation, edit e2,] then every expression
+				run := func(first string, es []edit) {
+					ku, cu, why := build(used)
+					kr, cr, whyR := build(ref)
+					if why != "" || whyR != "" {
+						v.undec = why + whyR
+						return
+					}
+					hist := "a collection p = 2, q = 3, r = 5, s = 7: " + evalName + " for ‹" + first + "›"
+					// the twin's calculator is given the same expressions (with automatic variables on, setting an
+					// expression adds entries to the default collection) but does not evaluate them
+					if _, why := eval(ku, cu, first); why != "" || kr.setTokens(first).kind != "ok" {
+						return // outside the model: the history says nothing
+					}
+					for i, e := range es {
+						if i > 0 {
+							if _, why := eval(ku, cu, "q + r"); why != "" || kr.setTokens("q + r").kind != "ok" {
+								return
+							}
+							hist += ", an evaluation of ‹q + r›"
+						}
+						ou, or := e.do(used, cu), e.do(ref, cr)
+						hist += ", " + e.show
+						if ou.kind == "panic" || or.kind == "panic" {
+							if ou.kind != or.kind && v.bad == "" {
+								v.bad = fmt.Sprintf("%s: the call ends with %s %s on the collection that was evaluated and with %s %s on an equal collection that was never evaluated", hist, ou.kind, ou.why, or.kind, or.why)
+							}
+							return
+						}
+						if ou.kind != "ok" || or.kind != "ok" {
+							return
+						}
+					}
+					for _, expr := range exprs {
+						got, why := eval(ku, cu, expr)
+						want, whyR := eval(kr, cr, expr)
+						if why != "" || whyR != "" {
+							continue
+						}
+						v.runs++
+						if got != want && v.bad == "" {
+							v.bad = fmt.Sprintf("%s; then ‹%s› answers %s. An equal collection that went through the same edits without the evaluation%s before answers %s: an evaluation must leave nothing behind in the variable collection (evaluating with equal inputs returns an equal result)", hist, expr, got, map[bool]string{true: "s", false: ""}[len(es) > 1], want)
+						}
+					}
+				}
+				for i, e1 := range edits {
+					run(firsts[i%len(firsts)], []edit{e1})
+				}
+				// two edits with an evaluation in between (removals and additions: positions shift twice)
+				for i, e1 := range edits {
+					for j, e2 := range edits {
+						if c.Tier != "thorough" && (i+2*j)%7 != 0 {
+							continue
+						}
+						run(firsts[(i+j)%len(firsts)], []edit{e1, e2})
+					}
+				}
+			}()
+		}
+	}
 	// ---- the managers called directly ------------------------------------------------------------------
 	conc := map[string]interface{}{"Null": nil, "Integer": int64(6), "Long": int64(3), "Boolean": true, "Float": float64(1.5), "Double": float64(2.5),
 		"String": lit("7"), "DateTime": "t0", "TimeSpan": int64(1500), "Object": "o", "Array": "a"}
@@ -556,7 +731,7 @@ func (c *Ctx) evxRun() []*opsVerdict {
 
 func init() {
 	register(&Rule{ID: "EVAL.realops", Floor: 8,
-		Doc: "calculators with the real operations managers (default, type-unsafe, type-safe) evaluate mixed-type expressions whose operands need conversions twice, again after the host stored another value in a variable's Variant in place, and interleaved with another variable set - also inside one another: a function of the caller that evaluates the same calculator instance with its own variable collection (recursive definitions over x = 0..4), where every evaluation must return and give the sequential result -: every answer equals that of a calculator which has not evaluated anything, and a fingerprint of everything reachable from the calculator instance (its operations object included) is the same after every evaluation; Convert and every operator of both managers called directly leave the manager object unchanged and answer by the present value of their operands",
+		Doc: "calculators with the real operations managers (default, type-unsafe, type-safe) evaluate mixed-type expressions whose operands need conversions twice, again after the host stored another value in a variable's Variant in place, and interleaved with another variable set - also inside one another: a function of the caller that evaluates the same calculator instance with its own variable collection (recursive definitions over x = 0..4), where every evaluation must return and give the sequential result -: every answer equals that of a calculator which has not evaluated anything, and a fingerprint of everything reachable from the calculator instance (its operations object included) is the same after every evaluation; Convert and every operator of both managers called directly leave the manager object unchanged and answer by the present value of their operands; a variable collection (caller-supplied or default) that took part in an evaluation and is then edited by its owner (RemoveByName / Remove / Add / Locate / Clear / ClearValues, one edit or two with an evaluation in between) answers every expression as an equal collection that was never evaluated",
 		Run: func(c *Ctx) []*Obligation {
 			o := newObl("EVAL.realops")
 			for _, v := range c.evxRun() {
